@@ -270,8 +270,8 @@ def run (_args : List String) : IO UInt32 :=
     else if c.tag == "route-symmetry" || c.tag == "route-symmetry-dirs" then checkRouteSymmetry c
     else if c.tag == "route-symmetry-dirs-any" then
       -- arbitrary direction restrictions: the unchanged library is not symmetric there (U-turns at restricted ends,
-      -- several pins at one position, restricted ends in line with shape edges …); asymmetries are COUNTED by kind,
-      -- not alarmed (see LEVEL_NOTE of check/props/C20.py)
+      -- several pins at one position, restricted ends in line with shape edges …); asymmetries are
+      -- reported as SPECFAIL with the kind in front (known finding C20-restricted-ends-asymmetric) and counted by kind
       let r := checkRouteSymmetry c
       match r.verdict with
       | .specfail m =>
@@ -286,7 +286,9 @@ def run (_args : List String) : IO UInt32 :=
         let what := match cd with
           | some l => if l[3]! != "-1" || l[4]! != "-1" then ".pin" else ".free-end"
           | none => ".unrestricted-connector"
-        { verdict := .ok, nontrivial := true, stats := [(kind ++ what, 1), ("finding.dirs-any", 1)] }
+        let short := (kind.drop "finding.dirs-any.".length).toString
+        { verdict := .specfail s!"route-symmetry[dirs-any] {short}{what}: {m}", nontrivial := true,
+          stats := [(kind ++ what, 1), ("finding.dirs-any", 1)] }
       | _ => r
     else if c.tag == "vpsc-translate" then checkVpscFrame c true
     else if c.tag == "vpsc-permute" then checkVpscFrame c false
